@@ -397,3 +397,155 @@ def model_line(exp, cfg="fixed"):
             xhex(e["fn"]), "".join(" " + sx(a) for a in e["args"]), "".join(" " + sx(a) for a in e["args"]),
             globals_sx(e["before"]), globals_sx(e["after"]), xhex(out), res))
     return f"hostmodel (cfg {cfg}) {fns_sx()} (init {globals_sx(init_globals())}) (calls {' '.join(calls)})"
+
+
+# ---------------------------------------------------------------------------
+# C10: programs for the cancellation check
+# ---------------------------------------------------------------------------
+
+def gen_straight(rng, size):
+    """Straight-line program: prints and calls of helper functions (acyclic), no jumps.
+    Its compiled listing is interpreted exactly by the Lean listing machine."""
+    nf = rng.randrange(0, 4)
+    fns = []
+    for i in range(nf):
+        body = []
+        for _ in range(rng.randrange(1, max(2, size // 3))):
+            callees = list(range(i + 1, nf))
+            if callees and rng.random() < 0.25:
+                body.append(f"f{rng.choice(callees)}();")
+            else:
+                body.append(f'print("{rng.choice("abcdefgh")}{i}");')
+        fns.append(f"fn f{i}() {{ {' '.join(body)} }}")
+    body = []
+    for _ in range(rng.randrange(1, size)):
+        if nf and rng.random() < 0.3:
+            body.append(f"f{rng.randrange(nf)}();")
+        else:
+            body.append(f'print("{rng.choice("mnopqrst")}");')
+    return "\n".join(fns) + "\nfn main() { " + " ".join(body) + " }\n"
+
+
+FINITE_BODIES = [
+    # loops, calls, try/catch, match, nested functions
+    'for i in 0..{n} {{ print(i); }}',
+    'let i = 0; while i < {n} {{ i += 1; if i % 3 == 0 {{ continue; }} print("w", i); }}',
+    'let i = 0; loop {{ if i >= {n} {{ break; }} i += 1; try {{ if i % 2 == 0 {{ throw("even"); }} print("odd", i); }} catch e {{ print(e.message); }} }}',
+    'for i in 0..{n} {{ let s = match i % 3 {{ 0 => "zero", 1 => "one", _ => "two" }}; print(s); }}',
+    'for i in 0..{m} {{ for j in 0..{m} {{ print(i * 10 + j); }} }}',
+    'print(fib({f}));',
+    'for i in 0..{m} {{ print(sq(i) + tw(i)); }}',
+    'let l = [1, 2, 3, 4, 5, 6, 7, 8]; let s = 0; for x in l {{ s += x; print(s); }}',
+    'try {{ for i in 0..{n} {{ if i == {m} {{ throw("stop"); }} print(i); }} }} catch e {{ print("caught", e.message); }} print("after");',
+    'time.sleep(0.02); print("slept"); for i in 0..{m} {{ print(i); }}',
+    'for i in 0..{m} {{ print(i); }} throw("final");',
+    'let s = ""; for i in 0..{n} {{ s = s + "x"; }} print(s.len());' if False else 'let s = 0; for i in 0..{n} {{ s = s + i; }} print(s);',
+]
+
+HELPERS = '''
+fn fib(n: int) -> int { if n < 2 { n } else { fib(n - 1) + fib(n - 2) } }
+fn sq(x: int) -> int { x * x }
+fn tw(x: int) -> int { sq(x) + sq(x) }
+'''
+
+
+def gen_finite(rng):
+    body = rng.choice(FINITE_BODIES).format(n=rng.randrange(3, 40), m=rng.randrange(2, 7), f=rng.randrange(3, 11))
+    pre = 'print("start"); ' if rng.random() < 0.5 else ""
+    return HELPERS + "fn main() { " + pre + body + " }\n"
+
+
+INFINITE_BODIES = [
+    'loop { }',
+    'let i = 0; loop { i += 1; }',
+    'while true { }',
+    'let i = 0; loop { try { i += 1; throw("x"); } catch e { i += 2; } }',
+    'loop { try { loop { try { throw("in"); } catch a { throw("out"); } } } catch b { } }',
+    'loop { spin(3); }',
+    'loop { time.sleep(0.01); }',
+    'let i = 0; loop { i += 1; if i % 1000 == 0 { print(i); } }',
+    'forever(0);',
+    'loop { for i in 0..10 { let x = sq(i); } }',
+    'try { loop { } } catch e { print("never"); }',
+    'loop { try { time.sleep(0.01); } catch e { print("never"); } }',
+]
+
+INF_HELPERS = '''
+fn sq(x: int) -> int { x * x }
+fn spin(n: int) { let i = 0; while i < n { i += 1; } }
+fn forever(n: int) { loop { spin(2); } }
+'''
+
+
+def gen_infinite(rng):
+    return INF_HELPERS + "fn main() { " + rng.choice(INFINITE_BODIES) + " }\n"
+
+
+def gen_spawn_cancel(rng):
+    """Programs with spawned cores for the cancellation check: (source, number of cores, finite?)."""
+    n = rng.randrange(1, 5)
+    kind = rng.choice(["inf", "inf", "fin", "sleep", "mixed"])
+    if kind == "inf":
+        w = 'fn worker(n: int) { let i = 0; loop { i += n; } }'
+        m = "loop { }"
+        fin = False
+    elif kind == "sleep":
+        w = 'fn worker(n: int) { loop { time.sleep(0.01); } }'
+        m = "loop { time.sleep(0.01); }"
+        fin = False
+    elif kind == "mixed":
+        w = 'fn worker(n: int) { if n % 2 == 0 { loop { } } else { for i in 0..20 { print(n, i); } } }'
+        m = "loop { }"
+        fin = False
+    else:
+        w = 'fn worker(n: int) { for i in 0..30 { print(n * 100 + i); } }'
+        m = 'for i in 0..30 { print(i); }'
+        fin = True
+    spawns = " ".join(f"spawn worker({i + 1});" for i in range(n))
+    return f"{w}\nfn main() {{ {spawns} {m} }}\n", n + 1, fin
+
+
+def cancel_line(src, ks, backends=("vm", "tree"), full=True, asm=False, maxk=None, trace=None):
+    parts = ["(cancel", "(ks " + " ".join(str(k) for k in ks) + ")", "(backends " + " ".join(backends) + ")"]
+    if not full:
+        parts.append("(full false)")
+    if asm:
+        parts.append("(asm true)")
+    if maxk:
+        parts.append(f"(maxk {maxk})")
+    if trace is not None:
+        parts.append(f"(trace {trace})")
+    parts.append(f"(main {xhex(src)})")
+    return " ".join(parts) + ")"
+
+
+STRAIGHT_OPS = {"Nop", "CopyPush", "CloningPush", "Clone", "Drop", "GetGlobImm", "GetVarImm", "SetVarImm", "SetGlobImm",
+                "AddMempointer", "Duplicate"}
+
+
+def listing_ops(asm):
+    """`ASM=((x<fn> op…)…)` -> {fn: [X|P|R|C:x..]} or None if the listing is not straight-line."""
+    body = asm.strip()
+    assert body.startswith("((") or body == "()", body[:40]
+    fns = {}
+    for chunk in body[2:-2].split(") ("):
+        toks = chunk.split()
+        name, ops = toks[0], []
+        for o in toks[1:]:
+            if o == "Call_Val":
+                ops.append("P")
+            elif o == "Return":
+                ops.append("R")
+            elif o.startswith("Call_Imm:"):
+                ops.append("C:" + o.split(":", 1)[1])
+            elif o in STRAIGHT_OPS:
+                ops.append("X")
+            else:
+                return None
+        fns[name] = ops
+    return fns
+
+
+def poll_model_line(fns, entry, ks):
+    return "pollmodel (entry %s) (fns %s) (ks %s)" % (
+        entry, " ".join("(" + " ".join([n] + ops) + ")" for n, ops in sorted(fns.items())), " ".join(str(k) for k in ks))
